@@ -18,6 +18,7 @@ CONSTANTS
     CallModes = {"pos", "kw", "kwrev", "mix", "def", "defkw"}
     AugOn = {"add", "mul"}
     PassOn = TRUE
+    AnnOn = TRUE
     ChainOn = TRUE
     LoopOn = TRUE
     MaxToks = 100
